@@ -72,8 +72,26 @@ def main_explore(pid, tier, seed, m, mutation_only=False, extra_oracle=None):
             for on in sg.mixed[1]:
                 renv["resolvers"][f"{on}.{sg.mixed[2]['name']}"] = {"k": "parentKey", "key": sg.mixed[2]["name"]}
         engines = []
+        # one field hidden from introspection (no effect on execution): what introspection shows may not depend on the settings
+        import copy as _copy
+        mdl = _copy.deepcopy(sg.model())
+        hid = [f for t in mdl["types"] if t["kind"] == "object" and t["name"] != "Query" and len(t["fields"]) > 1 for f in t["fields"][:1]]
+        if hid: hid[0]["sdl_directives"] = hid[0].get("sdl_directives", "") + " @nonIntrospectable"
         for cfg in (CONFIGS if tier != "quick" else rng.sample(CONFIGS[:8], 3) + [rng.choice(CONFIGS[8:])]):
-            engines.append((cfg, loop.run_until_complete(er.build_engine(sg.model(), renv, cfg=cfg))))
+            engines.append((cfg, loop.run_until_complete(er.build_engine(mdl, renv, cfg=cfg))))
+        if not mutation_only:
+            tn0 = sg.obj_names[0]
+            for iq in ("{ __schema { queryType { name fields { name } } types { name kind fields { name args { name } type { name kind ofType { name } } } possibleTypes { name } } } }",
+                       f'{{ a: __type(name: "{tn0}") {{ name fields(includeDeprecated: true) {{ name }} interfaces {{ name fields {{ name }} }} }} b: __typename }}'):
+                seen = {}
+                for cfg, b in engines:
+                    try: rr = loop.run_until_complete(b.engine.execute(iq))
+                    except Exception as e: rr = {"raised": f"{type(e).__name__}: {e}"}
+                    seen.setdefault(json.dumps(rr, sort_keys=True, default=str), []).append(cfg)
+                stats["evaluations"] += len(engines)
+                if len(seen) > 1:
+                    stats["problems"].append({"what": ["an introspection request is answered differently under different concurrency settings"], "query": iq,
+                                              "answers": [{"configs": v_, "response": json.loads(k_)} for k_, v_ in list(seen.items())[:3]], "sdl": print_sdl(mdl)})
         for di in range(ndocs):
             if time.time() - t0 > (110 if tier == "quick" else 1500): break
             if di < len(mixed):
